@@ -385,6 +385,8 @@ def run_process(ctx, spec):
             e2['LC_ALL'] = loc
             main = ['/venv/bin/python', os.path.join(env.REPO, 'main.py'), '-C']
             want_rc = 0
+            import resource
+            ru0 = resource.getrusage(resource.RUSAGE_CHILDREN)
             try:
                 if mode == '-l':
                     fn = os.path.join(d, 'in.log')
@@ -399,7 +401,15 @@ def run_process(ctx, spec):
                     e2['VERIF_CHILD_PLAN'] = planf
                     r = subprocess.run(main + ['-r', '/venv/bin/python', os.path.join(helpers, 'child.py')], input=b'quit\n', stdout=subprocess.PIPE, stderr=subprocess.PIPE, timeout=180, env=e2)
             except subprocess.TimeoutExpired:
-                ctx.inconc('process %s timed out' % mode)
+                # wall-clock alone decides nothing (a loaded machine); a child that BURNT more than a minute of CPU on a few
+                # kilobytes of input was not starved, it does not get through them
+                ru1 = resource.getrusage(resource.RUSAGE_CHILDREN)
+                cpu = (ru1.ru_utime + ru1.ru_stime) - (ru0.ru_utime + ru0.ru_stime)
+                if cpu > 60:
+                    ctx.violation('process-unbounded', '%s under %s: still running after 180 s, of which %.0f s CPU, on %d bytes of input' % (mode, loc, cpu, len(data)),
+                                  {'bytes_hex': data.hex(), 'mode': mode, 'locale': loc, 'want_rc': want_rc})
+                else:
+                    ctx.inconc('process %s timed out after 180 s having used %.1f s of CPU' % (mode, cpu))
                 continue
             ctx.ev()
             ctx.count('processes')
